@@ -326,7 +326,7 @@ Proof.
   vm_compute in H. apply H. reflexivity.
 Qed.
 
-(* two admissions between CanCreate and Increase: max_connections = 1 admits two *)
+(* two admissions between CanCreate and Increase: max_connections = 1 accepts two *)
 Lemma l4_threshold_refuted :
   ~ (forall c evs, 0 < maxc c -> no_setmax evs = true -> res (run sw_repaired c evs) <= maxc c).
 Proof.
